@@ -196,3 +196,12 @@ Theorem C08_update_fixpoint_example :
   TokensProofs.wf_canon (fun _ => true) c /\ TokensProofs.no_tc c /\ Tokens.needs_update_leaf (fun _ => true) c c = Some false.
 Proof. exact TokensProofs.wf_canon_example. Qed.
 Print Assumptions C08_update_fixpoint_example.
+
+(* F-08 (recorded known finding) stated in the model: a parenthesised repr (complex numbers) against the node asttokens locates without the parentheses *)
+Theorem C08_parenthesised_repr_update_refuted :
+  let node := [Tokens.Tok 2 [49]; TokensProofs.t_op [43]; Tokens.Tok 2 [50; 106]]%N in
+  let canon := (TokensProofs.t_op [40] :: node ++ [TokensProofs.t_op [41]])%N in
+  TokensProofs.wf_canon (fun _ => true) canon /\ Tokens.needs_update_leaf (fun _ => true) node canon = Some true
+  /\ Tokens.needs_update_norm (fun _ => true) node canon = Some true.
+Proof. exact TokensProofs.parenthesised_repr_refuted. Qed.
+Print Assumptions C08_parenthesised_repr_update_refuted.
